@@ -1419,7 +1419,7 @@ func main() {
 	mon.Main(mon.Options{
 		Property: "C18",
 		Level:    "exploration",
-		Rule: "direct tier: random penalty/check sequences over 1-5 IPs (v4, v6, v4-mapped spellings, with and without /tcp,/udp,/p2p suffixes), blacklists, threshold walks, pauses and expiry on a connectionGater (expiration 1-2 s, sweep 50 ms) against a per-IP sum model; " +
+		Rule: "(network tier also: a second peer with its own identity behind the offender's IP, penalised while the ban stands.) direct tier: random penalty/check sequences over 1-5 IPs (v4, v6, v4-mapped spellings, with and without /tcp,/udp,/p2p suffixes), blacklists, threshold walks, pauses and expiry on a connectionGater (expiration 1-2 s, sweep 50 ms) against a per-IP sum model; " +
 			"concurrent callers (2-8 goroutines) with a linearizability check of the returned totals; the rateLimit object on a socket-less Peer against a counter model. " +
 			"Network tier: victim 127.0.0.2, offender 127.0.0.3, optional bystander 127.0.0.4; 11 offences (malformed / unknown-procedure request and response envelopes, 3 invalid sync-style requests, rate above limit with penalty 100 and 2x50, accumulated ApplyPenalty, BanPeer), legal traffic at the limit over several intervals, blacklist. " +
 			"Non-trivial per distinct (IPs, blacklisted, banned, shape, expiry observed) / (offence, bystander, dial direction, disconnected).",
